@@ -27,7 +27,7 @@ def run(repo, run, tier):
     sample_kinds(repo, run, rid, "C08.5")
     # 'does not depend on the scale of the event function': the vectorised root search decides sign relations from signs, not from products that underflow
     from .c14 import product_sign_tests
-    product_sign_tests(repo, run, rule_id="C08.6", funcs=("brentsrootvec",))
+    product_sign_tests(repo, run, rule_id="C08.6", funcs=("brentsrootvec",), floor=1)
     # 'however many events are monitored': the first crossing of one event must not be dropped by the duplicate filter reading another event's record
     from .c07 import sentinel
     sentinel(repo, run, m, rule_id="C08.7")
@@ -91,15 +91,20 @@ def bracket(repo, run, m):
     ok = tup is not None and isinstance(tup.value, ast.Tuple) and len(tup.value.elts) == 3 and src(tup.value.elts[0]) == "self.__sol"
     if ok:
         p, n = tup.value.elts[1], tup.value.elts[2]
-        pv = defs.get(src(p))
-        nv = defs.get(src(n))
-        ok = pv is not None and nv is not None and src(pv.value) == "self.__t[self.counter - 1]" and src(nv.value) == "self.__t[self.counter]"
+
+        def resolve(e):
+            """(expression, statement at which it is evaluated): a local is followed to its definition"""
+            if isinstance(e, ast.Name) and e.id in defs:
+                return defs[e.id].value, defs[e.id]
+            return e, tup
+        (pe, pst), (ne, nst) = resolve(p), resolve(n)
+        ok = src(pe) == "self.__t[self.counter - 1]" and src(ne) == "self.__t[self.counter]"
         # both read after the commit and before the rollback
         from ..imodel import path_key
         if ok:
             k = path_key(m.commit_inc, m.fn)
             decs = [i for i in m.counter_incs if isinstance(i.op, ast.Sub)]
-            ok = k < path_key(pv, m.fn) and k < path_key(nv, m.fn) and all(path_key(pv, m.fn) < path_key(d, m.fn) and path_key(nv, m.fn) < path_key(d, m.fn) for d in decs)
+            ok = k < path_key(pst, m.fn) and k < path_key(nst, m.fn) and all(path_key(pst, m.fn) < path_key(d, m.fn) and path_key(nst, m.fn) < path_key(d, m.fn) for d in decs)
     run.judged(rid, "event search interval = (t[counter-1], t[counter]) of the step just committed", ok=ok)
     if not ok:
         run.report("C08.3", DS, tup or hc, "the interval handed to handle_events is not (start, end) of the step just taken", text="sol_tuple definition")
